@@ -103,6 +103,39 @@ theorem scalar_index_exact (mask : Bool) (es : List Entry) :
 example : getitemScalar false [.none, .bool true true, .ell, .none] =
     some ⟨[1, 1], fun _ => [], .all true⟩ := by rw [scalar_index_exact]; rfl
 
+/-- **scalar_rejects_nonboolean** (the rank-0 rejection rule).  A shapeless object accepts only
+    True / False / a Boolean object, None, the Ellipsis and the full slice: ANY other entry — an
+    integer or integer index object, a Pair / Vector, an array, a float, … — anywhere in the index
+    makes `__getitem__` raise IndexError ("too many indices"), and whether it does so does NOT depend
+    on that entry's mask (a masked `Scalar` index object is rejected exactly like an unmasked one). -/
+theorem scalar_rejects_nonboolean (mask : Bool) (pre suf : List Entry) (e : Entry)
+    (he : match e with
+          | .bool _ _ => False | .none => False | .ell => False | .slice true _ => False
+          | _ => True) :
+    getitemScalar mask (pre ++ e :: suf) = none := by
+  rw [scalar_index_exact]
+  have : ∀ (l : List Entry) (hb hE : Bool), scalarOK hb hE (l ++ e :: suf) = false := by
+    intro l
+    induction l with
+    | nil =>
+      intro hb hE
+      cases e with
+      | slice full l' => cases full <;> simp_all [scalarOK]
+      | bool v m => exact he.elim
+      | none => exact he.elim
+      | ell => exact he.elim
+      | _ => simp [scalarOK]
+    | cons x r ih =>
+      intro hb hE
+      cases x with
+      | slice full l' => cases full <;> simp [scalarOK, ih]
+      | _ => simp [scalarOK, ih]
+  simp [this]
+
+example : getitemScalar true [.none, .int 0 true] = none ∧ getitemScalar true [.none, .int 0 false] = none :=
+  ⟨scalar_rejects_nonboolean true [.none] [] (.int 0 true) trivial,
+   scalar_rejects_nonboolean true [.none] [] (.int 0 false) trivial⟩
+
 /-! ### end-to-end refinement for basic index tuples: `__getitem__` = `sel`
 
 `sel` (PMV/Lemmas/IndexSpec.lean) is the per-element specification: each entry is read against the
